@@ -130,3 +130,56 @@ def classify(seq):
 
 def charge_patterns(max_len=40, min_len=1):
     return st.lists(st.sampled_from([1, -1, 0]), min_size=min_len, max_size=max_len)
+
+
+# ---------------------------------------------------------------------------------------------
+# warm-up histories: other API calls made on the object before the property's own queries
+
+_GROUP = st.lists(st.sampled_from(list(AA)), min_size=1, max_size=4, unique=True)
+_PH = st.one_of(st.sampled_from([0, 0.0, 7, 7.0, 14, 3.5, 10.5, 5.25, 8.75, 7.4]), st.floats(0, 14).map(lambda v: round(v, 2)))
+_W = st.one_of(st.integers(1, 12), st.sampled_from([1, 1, 5, 6]))
+_NOARG = ["get_kappa", "get_deltaMax", "get_delta", "get_Omega", "get_SCD", "get_isoelectric_point", "get_kappa_after_phosphorylation",
+          "get_phosphosequence", "get_full_phosphostatus_kappa_distribution", "get_linear_sequence_composition", "get_FCR", "get_NCPR",
+          "get_phasePlotRegion", "get_amino_acid_fractions", "get_HTMLColorString", "clear_phosphosites", "get_mean_hydropathy",
+          "get_fraction_expanding", "get_molecular_weight", "get_uversky_hydropathy"]
+
+
+@st.composite
+def user_alphabets(draw):
+    nimg = draw(st.integers(2, 6))
+    images = draw(st.lists(st.sampled_from(list(AA)), min_size=nimg, max_size=nimg, unique=True))
+    return {a: draw(st.sampled_from(images)) for a in AA}
+
+
+@st.composite
+def warm_call(draw):
+    k = draw(st.integers(0, 11))
+    if k <= 2:
+        return [draw(st.sampled_from(_NOARG)), None]
+    if k == 3:
+        return ["get_deltaMax", [draw(st.booleans())]]
+    if k == 4:
+        return [draw(st.sampled_from(["get_FCR", "get_NCPR", "get_mean_net_charge", "get_fraction_expanding"])), [draw(_PH)]]
+    if k == 5:
+        return [draw(st.sampled_from(["get_linear_FCR", "get_linear_NCPR", "get_linear_sigma", "get_linear_hydropathy", "get_linear_sequence_composition"])), [draw(_W)]]
+    if k == 6:
+        g1 = draw(_GROUP)
+        g2 = [x for x in draw(_GROUP) if x not in g1]
+        return ["get_kappa_X", [g1, g2] if g2 and draw(st.booleans()) else [g1]]
+    if k == 7:
+        return ["set_phosphosites", [draw(st.lists(st.integers(-2, 40), min_size=1, max_size=4))]]
+    if k == 8:
+        if draw(st.booleans()):
+            return ["get_reduced_alphabet_sequence", [20, draw(user_alphabets())]]
+        return ["get_reduced_alphabet_sequence", [draw(st.sampled_from([2, 3, 5, 8, 12, 18]))]]
+    if k == 9:
+        return ["get_linear_complexity", [draw(st.sampled_from(["WF", "LC", "LZW"])), 20, draw(user_alphabets()) if draw(st.booleans()) else {},
+                                          draw(st.integers(1, 10)), draw(st.integers(1, 4)), draw(st.integers(1, 4))]]
+    if k == 10:
+        return ["get_linear_sequence_composition", [draw(_W), [draw(_GROUP) for _ in range(draw(st.integers(1, 3)))]]]
+    return ["get_PPII_propensity", [draw(st.sampled_from(["hilser", "creamer", "kallenbach"]))]]
+
+
+def warmups(max_calls=4):
+    """Empty half of the time, otherwise 1..max_calls generated API calls."""
+    return st.one_of(st.just([]), st.lists(warm_call(), min_size=1, max_size=max_calls))
